@@ -92,7 +92,7 @@ def _long_items(tier):
     reps = [40, 400, 3000, 4400] if tier == "quick" else [40, 400, 3000, 4400, 40000]
     out = []
     for ui, unit in enumerate(LONG_UNITS):
-        for pre in ("", "Foo v. Bar, 1 U.S. 1 ", "Foo v. Bar, 2 U.S. "):
+        for pre in ("", "Foo v. Bar, 1 U.S. 1 ", "Foo v. Bar, 2 U.S. ", "Foo v. Bar, 1 U.S. 1. Id. at "):  # the last: the repetition is the pin cite of an id.
             for post in ("", " 1 U.S. 1 (1999)", ", supra.", " Id. at 5"):
                 for r in reps:
                     if r * len(unit) > 120000:
